@@ -34,6 +34,9 @@ props! {
     "C01" => c01,
     "C02" => c02,
     "C08" => c08,
+    "C12" => c12,
+    "C16" => c16,
+    "C17" => c17,
 }
 
 pub fn replay(id: &str, path: &str) -> i32 {
